@@ -414,3 +414,16 @@ def s2_trace_quat():
     if bad:
         return f"tracer self-check failed for {bad}"
     return None
+
+
+def s2_trace_geom():
+    """PRE_LEAN hook of C20: re-trace geometry.to_cartesian / to_spherical and rewrite lean/Generated/TracedGeom.lean
+    (bridge: lean/Bridge/Geom.lean)."""
+    from .trace import tracer
+
+    traced = tracer.trace_geom()
+    tracer.emit_geom(traced)
+    bad = tracer.selfcheck_geom(traced)
+    if bad:
+        return f"tracer self-check failed for {bad}"
+    return None
